@@ -274,4 +274,68 @@ Definition ctx_cmp (c : ctx) (x y : dec) : res result :=
   do v <- dcmp x y;
   ret (mkResult (Some (mkDec Finite (v <? 0) 0 (Z.abs v))) c0 ENone).
 
+(* ---------- special-value prologues of the iterative functions ----------
+   Sqrt, Cbrt (rootSpecials), Ln, Log10 (logSpecials), Exp and Pow decide every special-operand cell
+   before their iteration starts.  [Some r]: the call returns r; [None]: the iteration runs (it is not
+   modelled; its results are judged by the oracles of C11 / C12). *)
+
+(* c.rootSpecials(d, x, factor) *)
+Definition root_specials (c : ctx) (x : dec) (factor : Z) : res (option result) :=
+  if should_set_as_nan x None then Ok (Some (set_as_nan c x None)) else
+  if form_eqb (form_of x) Infinite then
+    if neg x then Ok (Some (finish c d_nan fInvalidOperation))
+    else Ok (Some (mkResult (Some d_inf) c0 ENone))
+  else
+  let s := dsign x in
+  if (s =? -1) && (Z.rem factor 2 =? 0) then Ok (Some (finish c d_nan fInvalidOperation))
+  else if s =? 0 then
+    (* d.Set(x); d.Exponent /= factor; then the zero is rounded (clamped) into the context *)
+    do (d, f) <- ctx_round c (set_exp x (Z.quot (exp x) factor));
+    Ok (Some (finish c d f))
+  else Ok None.
+
+(* c.logSpecials(d, x) *)
+Definition log_specials (c : ctx) (x : dec) : res (option result) :=
+  if should_set_as_nan x None then Ok (Some (set_as_nan c x None)) else
+  if dsign x <? 0 then Ok (Some (finish c d_nan fInvalidOperation)) else
+  if form_eqb (form_of x) Infinite then Ok (Some (mkResult (Some d_inf) c0 ENone)) else
+  do z <- dcmp x d_zero;
+  if z =? 0 then Ok (Some (mkResult (Some (set_neg d_inf true)) c0 ENone)) else
+  do o <- dcmp x d_one;
+  if o =? 0 then Ok (Some (mkResult (Some d_zero) c0 ENone)) else Ok None.
+
+(* the prologue of Context.Exp *)
+Definition exp_specials (c : ctx) (x : dec) : option result :=
+  if should_set_as_nan x None then Some (set_as_nan c x None) else
+  if form_eqb (form_of x) Infinite then Some (mkResult (Some (if neg x then d_zero else d_inf)) c0 ENone) else
+  if is_zero x then Some (mkResult (Some d_one) c0 ENone) else
+  if prec c =? 0 then Some (mkResult None c0 EZeroPrecision) else None.
+
+(* the prologue of Context.Pow, up to and including the test for a negative base with a fractional exponent *)
+Definition pow_specials (c : ctx) (x y : dec) : res (option result) :=
+  if should_set_as_nan x (Some y) then Ok (Some (set_as_nan c x (Some y))) else
+  do (integ, frac) <- modf y;
+  let y_is_int := is_zero frac in
+  let ng := neg x && is_finite y && y_is_int && Z.odd (coeff integ) && (exp integ =? 0) in
+  let xs := dsign x in
+  let ys := dsign y in
+  if form_eqb (form_of x) Infinite then
+    if ys =? 0 then Ok (Some (finish c (set_neg d_one ng) c0))
+    else if neg x && (form_eqb (form_of y) Infinite || negb y_is_int) then Ok (Some (finish c (set_neg d_nan ng) fInvalidOperation))
+    else if neg y then Ok (Some (finish c (set_neg d_zero ng) c0))
+    else Ok (Some (finish c (set_neg d_inf ng) c0))
+  else if xs =? 0 then
+    if ys =? 0 then Ok (Some (finish c (set_neg d_nan ng) fInvalidOperation))
+    else if ys =? 1 then Ok (Some (finish c (set_neg d_zero ng) c0))
+    else Ok (Some (finish c (set_neg d_inf ng) c0))
+  else if ys =? 0 then Ok (Some (mkResult (Some d_one) c0 ENone))
+  else if form_eqb (form_of y) Infinite then
+    if xs <? 0 then Ok (Some (finish c d_nan fInvalidOperation)) else
+    do o <- dcmp x d_one;
+    if o =? -1 then Ok (Some (finish c (if neg y then d_inf else d_zero) c0))
+    else if o =? 0 then Ok (Some (finish c d_one (fInexact ||| fRounded)))
+    else Ok (Some (finish c (if neg y then d_zero else d_inf) c0))
+  else if (xs <? 0) && negb y_is_int then Ok (Some (finish c d_nan fInvalidOperation))
+  else Ok None.
+
 End WithEst.
